@@ -2,17 +2,17 @@ SPECIFICATION SafetySpec
 CONSTANTS
   QCap = 1
   NIn = 1
-  NOut = 1
+  NOut = 0
   MaxGen = 2
-  UserNames = {}
+  UserNames = {"u1"}
   SenderNames = {}
   NSend = 0
   Burst = TRUE
   AllowEOF = TRUE
-  AllowCancel = TRUE
+  AllowCancel = FALSE
   AllowWErr = FALSE
   AllowStall = FALSE
-  Reconnect = "other"
+  Reconnect = "eager"
   ConnectWhileUp = FALSE
   HasPing = FALSE
   DrainOnce = FALSE
@@ -20,6 +20,6 @@ CONSTANTS
   NoWatcher = FALSE
   InitBeforeCheck = FALSE
   EarlyUnlock = FALSE
-INVARIANTS TypeOK AtMostOneDisc RegisterOnce DiscSeesDisconnected NoCrash OwnClose ClosedForACause GoneAfterDisc WireOrdered AllWritten
+INVARIANTS TypeOK AtMostOneDisc RegisterOnce NoCrash OwnClose ClosedForACause GoneAfterDisc WireOrdered AllWritten
 
 CHECK_DEADLOCK FALSE
